@@ -57,12 +57,12 @@ REQUIRED_UNITS = {
     "C01": _FILE, "C02": ["TDims", "TComposed", "TVersions", "TVlr", "TExtra", "TGeMasks"], "C03": _FILE, "C04": _FILE,
     "C05": _FILE + ["Reader"], "C06": _FILE, "C07": ["TVersions", "TVlr", "Dims"], "C08": ["TVlr", "TExtra"],
     "C09": ["TDims", "TComposed"], "C10": ["TDims", "TComposed", "Views"], "C11": [], "C12": ["TDims", "TComposed", "TVersions", "Dims"],
-    "C13": ["TDims", "TExtra"], "C14": ["Compression"], "C15": ["Copc", "TCopc"], "C16": [], "C17": [], "C18": [],
+    "C13": ["TDims", "TExtra"], "C14": ["Compression", "Selection"], "C15": ["Copc", "TCopc"], "C16": [], "C17": [], "C18": [],
     "C19": _FILE + ["Order"], "C20": ["GE", "TGeMasks"],
 }
 
 
-FUNCTION_UNITS = {"GE", "Compression", "Dims", "Copc", "Reader", "Views", "Order"}
+FUNCTION_UNITS = {"GE", "Compression", "Dims", "Copc", "Reader", "Views", "Order", "Selection"}
 
 
 class Check:
